@@ -19,21 +19,27 @@ theorem linv_new : LInv Ctx.new := by
   constructor <;> simp [Ctx.new, Heap.size]
   all_goals simp [Heap.empty]
 
-theorem LInv.quiet {c c' : Ctx} (h : LInv c) (q : Quiet c c') : LInv c' := by
-  have hlog := q.log
+/-- Transfer along a step that emits nothing and keeps allocations and liveness (no phase
+    condition: used for the phase switches too). -/
+theorem LInv.still {c c' : Ctx} (h : LInv c) (hlog : c'.log = c.log)
+    (keep : ∀ i o, c.heap.get i = some o → ∃ o', c'.heap.get i = some o' ∧ o'.live = o.live)
+    (sizeLe : c.heap.size ≤ c'.heap.size)
+    (noNew : ∀ i o', c'.heap.get i = some o' →
+      (∃ o, c.heap.get i = some o) ∨ (c.heap.size ≤ i ∧ o'.live = true))
+    (noGap : ∀ i, c.heap.size ≤ i → i < c'.heap.size → ∃ o', c'.heap.get i = some o') : LInv c' := by
   constructor
   · rw [hlog]; exact h.nodup
   · intro i hi o' ho'
     rw [hlog] at hi
-    rcases q.noNew i o' ho' with ⟨o, ho⟩ | ⟨hsz, _⟩
-    · obtain ⟨o2, ho2, hl2⟩ := q.keep i o ho
+    rcases noNew i o' ho' with ⟨o, ho⟩ | ⟨hsz, _⟩
+    · obtain ⟨o2, ho2, hl2⟩ := keep i o ho
       rw [ho'] at ho2; cases ho2
       rw [hl2]; exact h.droppedDead i hi o ho
     · have := h.bound _ hi; simp only [Event.target] at this; omega
   · intro i o' ho' hl'
     rw [hlog]
-    rcases q.noNew i o' ho' with ⟨o, ho⟩ | ⟨_, hl⟩
-    · obtain ⟨o2, ho2, hl2⟩ := q.keep i o ho
+    rcases noNew i o' ho' with ⟨o, ho⟩ | ⟨_, hl⟩
+    · obtain ⟨o2, ho2, hl2⟩ := keep i o ho
       rw [ho'] at ho2; cases ho2
       exact h.deadDropped i o ho (by rw [← hl2]; exact hl')
     · rw [hl] at hl'; cases hl'
@@ -42,11 +48,11 @@ theorem LInv.quiet {c c' : Ctx} (h : LInv c) (q : Quiet c c') : LInv c' := by
     cases hg : c'.heap.get i with
     | none => rfl
     | some o' =>
-      rcases q.noNew i o' hg with ⟨o, ho⟩ | ⟨hsz, _⟩
+      rcases noNew i o' hg with ⟨o, ho⟩ | ⟨hsz, _⟩
       · rw [h.freedGone i hi] at ho; cases ho
       · have := h.bound _ hi; simp only [Event.target] at this; omega
   · intro i hi; rw [hlog] at hi ⊢; exact h.freedDropped i hi
-  · intro e he; rw [hlog] at he; exact Nat.lt_of_lt_of_le (h.bound e he) q.sizeLe
+  · intro e he; rw [hlog] at he; exact Nat.lt_of_lt_of_le (h.bound e he) sizeLe
   · intro i hi hg
     rw [hlog]
     by_cases hlt : i < c.heap.size
@@ -54,10 +60,17 @@ theorem LInv.quiet {c c' : Ctx} (h : LInv c) (q : Quiet c c') : LInv c' := by
       cases hc : c.heap.get i with
       | none => rfl
       | some o =>
-        obtain ⟨o', ho', _⟩ := q.keep i o hc
+        obtain ⟨o', ho', _⟩ := keep i o hc
         rw [hg] at ho'; cases ho'
-    · obtain ⟨o', ho'⟩ := q.noGap i (by omega) hi
+    · obtain ⟨o', ho'⟩ := noGap i (by omega) hi
       rw [hg] at ho'; cases ho'
+
+theorem LInv.quiet {c c' : Ctx} (h : LInv c) (q : Quiet c c') : LInv c' :=
+  h.still q.log q.keep q.sizeLe q.noNew q.noGap
+
+theorem LInv.sameHeap {c c' : Ctx} (h : LInv c) (hh : c'.heap = c.heap) (hlog : c'.log = c.log) : LInv c' :=
+  h.still hlog (fun i o ho => ⟨o, by rw [hh]; exact ho, rfl⟩) (by rw [hh]; exact Nat.le_refl _)
+    (fun i o' ho' => Or.inl ⟨o', by rw [← hh]; exact ho'⟩) (fun i h1 h2 => by rw [hh] at h2; omega)
 
 /-- Destruct (if still live) and release object `i`. -/
 theorem LInv.release {c c' : Ctx} (h : LInv c) {i : Nat} {o : Obj} (ho : c.heap.get i = some o)
